@@ -241,7 +241,22 @@ def shard_lines(ctx, k, payload):
 
     def body(args):
         (year, status), cents, which = args
-        line, drv, reads = specs[which]
+        check_line(ctx, year, status, cents, which)
+    strat = st.tuples(st.sampled_from(PAIRS), income_strategy(), st.integers(0, 2))
+    hyp.run_given(strat, body, n, seed)
+
+
+LINE_SPECS = [('1040.16', 'v:1040.15', {'i:1040.uncommon_tax': False, 'i:1040.need_8615': False, 'i:1040.schedule_d_required': False,
+                                        'v:1040.3a': 0.0, 'v:1040.7': 0.0}),
+              ('1040_qualdiv_capgain_tax_wkst.22', 'v:1040_qualdiv_capgain_tax_wkst.5', {}),
+              ('1040_qualdiv_capgain_tax_wkst.24', 'v:1040_qualdiv_capgain_tax_wkst.1', {})]
+
+
+def check_line(ctx, year, status, cents, which):
+    from checks import c08
+    from hx import scenario
+    if True:
+        line, drv, reads = LINE_SPECS[which]
         if year == 2021 and 4800000 <= cents < 6600000:
             return   # the known table hole: covered by the figure_tax part
         r = dict(reads)
@@ -255,8 +270,6 @@ def shard_lines(ctx, k, payload):
             ctx.violation(f'line:{year}:{line}', f'{year} {status}: {line} with operand {cents/100} gives {kind} {val!r}; statutory tax is {float(exp)}',
                           {'year': year, 'status': status, 'cents': cents, 'line': which})
         ctx.nt(f'L{which}{year}{status}{cents}')
-    strat = st.tuples(st.sampled_from(PAIRS), income_strategy(), st.integers(0, 2))
-    hyp.run_given(strat, body, n, seed)
 
 
 def run(ctx):
@@ -277,6 +290,7 @@ def run(ctx):
 
 def replay(ctx, case):
     if 'line' in case:
+        check_line(ctx, case['year'], case['status'], case['cents'], case['line'])
         return
     v = check_point(ctx, case['year'], case['status'], case['cents'])
     if 'cents2' in case:
